@@ -280,7 +280,7 @@ def generate():
                    "if node.id.name != 'style' or self.css_styles == 'skip':",
                    "ref_styles = self.reference.css_styles", "if ref_styles in ('skip', None):",
                    "ref_styles = {}",
-                   "for (cat, msg, pos, _) in self.check_style(ref_styles, self.css_styles, self.css_errors):"):
+                   "for cat, msg, pos, _ in self.check_style(ref_styles, self.css_styles, self.css_errors):"):
         need(needle in src, "L10nMessageVisitor.visit_Attribute: " + needle)
     src = ast.unparse(method(V, "visit_SelectExpression"))
     need("super().visit_SelectExpression(node)\n    self.check_variants(node.variants)" in src,
@@ -320,8 +320,8 @@ def generate():
     need(len(aps) == 1 and ast.unparse(aps[0][1]) == "0" and ast.unparse(aps[0][2]) == "msg",
          "check_message: append(('warning', 0, msg))")
     src = ast.unparse(fn)
-    for needle in ("for (attr_or_val, refs) in ref_data.entry_refs.items():",
-                   "for (ref, ref_type) in refs.items():",
+    for needle in ("for attr_or_val, refs in ref_data.entry_refs.items():",
+                   "for ref, ref_type in refs.items():",
                    "if ref not in l10n_data.entry_refs[attr_or_val]:",
                    "msg = MSGS['missing-' + ref_type].format(ref=ref)"):
         need(needle in src, "check_message: " + needle)
@@ -334,7 +334,7 @@ def generate():
     for needle in ("yield from super().check(refEnt, l10nEnt)", "if isinstance(l10n_entry, ftl.Message):",
                    "messages = self.check_message(ref_entry, l10n_entry)",
                    "elif isinstance(l10n_entry, ftl.Term):", "messages = self.check_term(l10n_entry)",
-                   "messages.sort(key=lambda t: t[1])", "for (cat, pos, msg) in messages:",
+                   "messages.sort(key=lambda t: t[1])", "for cat, pos, msg in messages:",
                    "if pos:\n            pos = pos - l10n_entry.span.start"):
         need(needle in src, "FluentChecker.check: " + needle)
     ys = [n for n in ast.walk(fn) if isinstance(n, ast.Yield)]
@@ -378,7 +378,7 @@ def generate():
     need(ast.unparse(e[1]) == "0" and ast.unparse(e[2]) == "', '.join(msgs)", "check_style: warning yield")
     L.append(f"Definition sev_css_warning : bool := {sev(e[0], 'check_style')}.")
     src = ast.unparse(fn)
-    for needle in ("if not l10n_map:", "if errors:", "for (prop, unit) in l10n_map.items():",
+    for needle in ("if not l10n_map:", "if errors:", "for prop, unit in l10n_map.items():",
                    "if prop not in ref_map:", "msgs.insert(0, '%s only in l10n' % prop)\n            continue",
                    "ref_unit = ref_map.pop(prop)", "if unit != ref_unit:",
                    "msgs.append(\"units for %s don't match (%s != %s)\" % (prop, unit, ref_unit))",
